@@ -48,7 +48,7 @@ def main(argv):
         except core.AnalysisError as e:
             ctx.err('run', 'ANALYSIS: %s' % e, rule='framework')
         rc = core.finish(ctx, mod.META, t0)
-        if tier == 'thorough' and rc == 0 and root == '/repo' and hasattr(mod, 'VARIANTS'):
+        if tier == 'thorough' and rc == 0 and root == '/repo':
             from . import selftest
             rc = selftest.run_property(prop, mod)
         return rc
